@@ -1,2 +1,52 @@
-(* C03 - closing theorems only. *)
-From Slim Require Import Base Keys Model.
+(* C03 - Complete mode is an exact ordered map for arbitrary query strings.
+   Closing theorem only; proofs in theories/OrderProofs.v and SearchProofs.v.
+
+   With inner and leaf prefixes stored (Complete, or InnerPrefix+LeafPrefix), for
+   EVERY query string q the retained entries (in key order) split as Bl ++ Ar or
+   Bl ++ x :: Ar with every key of Bl below q, every key of Ar above q and x's
+   key equal to q (plain bytewise order, [key_lt]); Get/GetID report found exactly
+   in the second case, with x's value; Search returns the values of last(Bl), x,
+   head(Ar); RangeGet returns x's value, else last(Bl)'s, else not-found. *)
+From Slim Require Import Base Keys KeysProofs Model TrieInv BuildProofs QueryProofs OrderProofs SearchProofs.
+
+Theorem C03_complete_exact :
+  forall (ropt : raw_opt) keys vals T q,
+    build (normalize ropt) keys vals = Ok T -> keys <> [] ->
+    o_inner (normalize ropt) = true -> o_leaf (normalize ropt) = true ->
+    let root := root_subset (normalize ropt) keys vals in
+    let sv := fun x => stored T vals (e_idx x) in
+    exists Bl Ar,
+      Forall (fun x => key_lt (e_key x) q) Bl /\ Forall (fun x => key_lt q (e_key x)) Ar /\
+      ((kept root = Bl ++ Ar /\ getid T q = None /\ get T q = Ok NotFound /\
+        search T q = Ok (option_map sv (last_opt Bl), None, option_map sv (hd_opt Ar)) /\
+        rangeget T q = Ok (match last_opt Bl with Some x => Found (sv x) | None => NotFound end))
+       \/
+       (exists x, kept root = Bl ++ x :: Ar /\ e_key x = q /\ (exists id, getid T q = Some id) /\
+                  get T q = Ok (Found (sv x)) /\
+                  search T q = Ok (option_map sv (last_opt Bl), Some (sv x), option_map sv (hd_opt Ar)) /\
+                  rangeget T q = Ok (Found (sv x)))).
+Proof. intros ropt keys vals T q. exact (complete_exact (normalize ropt) keys vals T q). Qed.
+Print Assumptions C03_complete_exact.
+
+(* Complete implies both prefixes, whatever the other option fields say *)
+Theorem C03_complete_option :
+  forall d i l, o_inner (normalize {| r_dedup := d; r_inner := i; r_leaf := l; r_complete := Some true |}) = true /\
+                o_leaf (normalize {| r_dedup := d; r_inner := i; r_leaf := l; r_complete := Some true |}) = true.
+Proof. intros d i l. split; reflexivity. Qed.
+Print Assumptions C03_complete_option.
+
+(* the empty key set: nothing is found *)
+Theorem C03_empty : forall ropt vals T q, build (normalize ropt) [] vals = Ok T ->
+  getid T q = None /\ get T q = Ok NotFound /\ rangeget T q = Ok NotFound /\ search T q = Ok (None, None, None).
+Proof. intros ropt vals T q H. inversion H; subst. repeat split. Qed.
+Print Assumptions C03_empty.
+
+Definition ex_keys : list key := [ ["097"%byte]; ["097"%byte; "098"%byte; "099"%byte]; ["098"%byte] ].
+Definition ex_vals : option (list (list byte)) := Some [ ["001"%byte]; ["002"%byte]; ["003"%byte] ].
+Definition ex_opt : raw_opt := {| r_dedup := None; r_inner := Some false; r_leaf := Some false; r_complete := Some true |}.
+(* "am" was a false positive in filter mode (props/C10.v); here it is absent, between "abc" and "b" *)
+Example C03_example :
+  exists T, build (normalize ex_opt) ex_keys ex_vals = Ok T /\
+            get T ["097"%byte; "109"%byte] = Ok NotFound /\
+            search T ["097"%byte; "109"%byte] = Ok (Some (Some ["002"%byte]), None, Some (Some ["003"%byte])).
+Proof. eexists. repeat split; vm_compute; reflexivity. Qed.
